@@ -721,7 +721,7 @@ func effectLines(c *core.Ctx, effs []loopEffect) []string {
 }
 
 func checkC10(c *core.Ctx, l *core.Ledger) {
-	l.Explanation = "Static clauses of C10: (MAPORD) every range over a map in non-generated code of compile, gen, internal/plugin and the command is classified from an SSA effect analysis of its body with interprocedural mod-summaries: A = elements collected into a slice that is sorted before every later use; B = only commutative effects on outer state (map inserts keyed by the iteration key, counters, flags, error accumulation); C = no effect except returning an error; D = one file-system effect per key on a path derived from the key. Any other effect on state that outlives the iteration (namespace/import-alias/mangler counters, appends that are never sorted, mutation of shared specs, first-match returns) is order-sensitive and reported. (WALK) Module.Walk exposes map order to its callbacks by contract; each callback passed to it is classified by the same rules. (SELF-CONTAINED) the per-module callback of gen.Generate, which runs in map order, registers the whole include tree of its own module with the request builder before it adds services, so the failing lookup of an ancestor's module id never depends on what earlier iterations registered. (MEMO-KEY) a function that memoises its result keys the table by every parameter the result depends on, so a cached answer cannot depend on which caller came first. (MODULE-IDENTITY) no visited-set or memo table is keyed by a module's base name: which of two same-named files is visited would depend on map order, and the other would never be generated. (SOURCES) no wall-clock, random, pid or pointer-formatting source is reachable from the generation entry points. (TMPL-RANGE) templates range over maps only where text/template sorts the keys. NOT decided: byte equality across runs as such; determinism of plugin processes; RootServices/RootModules order (treated as sets, as the property allows arbitrary numbering)."
+	l.Explanation = "Static clauses of C10: (MAPORD) every range over a map in non-generated code of compile, gen, internal/plugin and the command is classified from an SSA effect analysis of its body with interprocedural mod-summaries: A = elements collected into a slice that is sorted before every later use; B = only commutative effects on outer state (map inserts keyed by the iteration key, counters, flags, error accumulation); C = no effect except returning an error; D = one file-system effect per key on a path derived from the key. Any other effect on state that outlives the iteration (namespace/import-alias/mangler counters, appends that are never sorted, mutation of shared specs, first-match returns) is order-sensitive and reported. (WALK) Module.Walk exposes map order to its callbacks by contract; each callback passed to it is classified by the same rules. (SELF-CONTAINED) the per-module callback of gen.Generate, which runs in map order, registers the whole include tree of its own module with the request builder before it adds services, so the failing lookup of an ancestor's module id never depends on what earlier iterations registered. (MEMO-KEY) a function that memoises its result keys the table by every parameter the result depends on, so a cached answer cannot depend on which caller came first. (MODULE-IDENTITY) no visited-set or memo table is keyed by a module's base name: which of two same-named files is visited would depend on map order, and the other would never be generated. (SOURCES) no wall-clock, random, pid or pointer-formatting source is reachable from the generation entry points. (TMPL-RANGE) templates range over maps only where text/template sorts the keys. (ERR-KEEP) an error found in one turn of a loop survives the later turns, so whether a run fails does not depend on iteration order. NOT decided: byte equality across runs as such; determinism of plugin processes; RootServices/RootModules order (treated as sets, as the property allows arbitrary numbering)."
 	l.RuleText = "one obligation per map-range site / Walk callback / nondeterminism source; non-trivial = the body has at least one effect on outer state"
 	l.Assumptions = []string{"text/template visits map keys in sorted order (documented behaviour)", "module and service id numbering is arbitrary by the property statement", "mod-summaries treat stdlib packages listed as pure as having no relevant side effects"}
 	rels := []string{"compile", "gen", "internal/plugin", ""}
@@ -911,6 +911,9 @@ func checkWalkCallbacks(c *core.Ctx, l *core.Ledger) {
 	checkModulesFirst(c, l, "SELF-CONTAINED", "generateModule.modules-first")
 	checkMemoKeys(c, l)
 	checkModuleIdentity(c, l, "MODULE-IDENTITY", []string{"compile", "gen", ""})
+	// an error found in one turn of a map-ordered loop must survive the later turns: otherwise whether the run fails
+	// depends on which entry came last
+	checkErrKeep(c, l, "ERR-KEEP", []string{"compile", "gen", "", "internal/plugin"})
 }
 
 // checkNondetSources: nothing reachable from the generation entry points
